@@ -149,7 +149,7 @@ impl Property for C14 {
         let k = *rng.pick(&[0usize, 1, 1, 2, 2, 3, 4]);
         let mut steps_at: Vec<u32> = (0..k).map(|_| if rng.chance(1, 3) { 1 } else { rng.range(1, horizon_ticks + 2) as u32 }).collect();
         steps_at.sort();
-        let mut net = Net { cfg, hosts: n, udp, conns, hacts: Vec::new(), script: Vec::new(), steps: 0, sample_links: false, probes: vec![] };
+        let mut net = Net { cfg, hosts: n, udp, conns, hacts: Vec::new(), script: Vec::new(), steps: 0, sample_links: false, probes: vec![], literal_order: vec![] };
         let mut lat = LatModel::new(&net);
         let mut max_lat = net.cfg.max_latency_us;
         let tick = net.cfg.tick_us;
@@ -434,7 +434,7 @@ mod tests {
 
     #[test]
     fn lat_model_precedence() {
-        let net = Net { cfg: SimCfg { min_latency_us: 2000, max_latency_us: 5000, ..SimCfg::default() }, hosts: 3, udp: vec![], conns: vec![], hacts: vec![], script: vec![], steps: 1, sample_links: false, probes: vec![] };
+        let net = Net { cfg: SimCfg { min_latency_us: 2000, max_latency_us: 5000, ..SimCfg::default() }, hosts: 3, udp: vec![], conns: vec![], hacts: vec![], script: vec![], steps: 1, sample_links: false, probes: vec![], literal_order: vec![] };
         let mut m = LatModel::new(&net);
         assert_eq!(m.eff(0, 1), (2000, 5000));
         m.apply(&Act::SetLinkMaxLatency(Sel::Name(1), Sel::Name(0), 9000));
@@ -454,7 +454,7 @@ mod tests {
     fn repo_scenario_passes_the_oracle() {
         let cfg = SimCfg { min_latency_us: 2000, max_latency_us: 2000, tick_us: 1000, ..SimCfg::default() };
         let udp = vec![UdpBurst { from: 1, to: 0, at_ms: 2, count: 1, by_ip: false }, UdpBurst { from: 1, to: 0, at_ms: 12, count: 1, by_ip: false }];
-        let net = Net { cfg, hosts: 2, udp, conns: vec![], hacts: vec![], script: vec![(10, Act::SetLinkLatency(Sel::Name(1), Sel::Name(0), 10_000))], steps: 40, sample_links: false, probes: vec![] };
+        let net = Net { cfg, hosts: 2, udp, conns: vec![], hacts: vec![], script: vec![(10, Act::SetLinkLatency(Sel::Name(1), Sel::Name(0), 10_000))], steps: 40, sample_links: false, probes: vec![], literal_order: vec![] };
         let rep = C14::run(&Scenario { net }, true);
         assert!(rep.violation.is_none(), "{:?}", rep.violation);
         assert!(rep.log.iter().any(|l| l.contains("t=4000 h0 Recv(Udp { from: 1, to: 0, seq: 0 })")), "{}", rep.log.join("\n"));
